@@ -384,8 +384,8 @@ inductive Ev where
   | reply (s : Nat) (what : String)
   /-- message of `frm` delivered to another session -/
   | deliver (to : Nat) (what : String) (frm : Nat)
-  /-- transient data event -/
-  | tev (to : Nat) (what : String)
+  /-- transient data event caused by a write of `frm` -/
+  | tev (to : Nat) (what : String) (frm : Nat)
   | pubNew (s : Nat) (stream : String) (m : Media)
   | pubSet (s : Nat) (stream : String) (m : Media)
   | pubMsg (s : Nat) (stream : String) (k : Kind)
@@ -645,12 +645,12 @@ def transientStep (cfg : Cfg) (st : St) (s : Nat) (a : TAct) : St × List Ev :=
       if !mayTransient cfg x then (st, [.reply s "not_allowed"])
       else if (st.store rm).lookup k == some v then (st, [])
       else ({ st with store := fun q => if q = rm then (k, v) :: (st.store rm).filter (fun e => e.1 != k) else st.store q },
-            (roomSessions st rm).map fun i => Ev.tev i ("tset." ++ k ++ "." ++ v))
+            (roomSessions st rm).map fun i => Ev.tev i ("tset." ++ k ++ "." ++ v) s)
     | .remove k =>
       if !mayTransient cfg x then (st, [.reply s "not_allowed"])
       else if ((st.store rm).lookup k).isNone then (st, [])
       else ({ st with store := fun q => if q = rm then (st.store rm).filter (fun e => e.1 != k) else st.store q },
-            (roomSessions st rm).map fun i => Ev.tev i ("trm." ++ k))
+            (roomSessions st rm).map fun i => Ev.tev i ("trm." ++ k) s)
 
 /-! ### one step -/
 
